@@ -142,14 +142,20 @@ CHECKS = {
  'C06': dict(text="Partial. Proved (Coq): a clean log file cut at ANY byte at or after its header (what a power loss leaves when it keeps a "
                   "prefix at least as long as the fsynced length) is recovered to exactly the records lying entirely below the cut: a prefix "
                   "of what was written, containing every record below the synced length; the result is clean (Check passes, Recover "
-                  "idempotent). NOT proved: which fsync calls the implementation issues (Sync/AutoSync/Close/rollover/rewrite order) - "
-                  "that is observed through the FS tap. Tied to /repo by power-loss images synthesized from the tap: every file cut to its "
+                  "idempotent). On the table of files with their fsynced lengths (Durable.v, the map the FS tap keeps), for the create / "
+                  "write / fsync steps of Publish (rollover included), Sync and Close as decided from the model state: every file of a "
+                  "sealed segment is entirely on stable storage at all times (the retiring head's log and index are fsynced before the "
+                  "new head exists); when Sync or Close returns, or a Publish on a log opened with AutoSync, every file is; and after "
+                  "ANY later steps a power loss (each file cut to any length between its fsynced length and its length) leaves of every "
+                  "file at least the bytes it had when that Sync returned. NOT proved: the fsync calls of delete-by-rewrite, Recover and "
+                  "Migrate (observed through the tap only). Tied to /repo by comparing the write / fsync / create events of every Publish, "
+                  "Sync and Close with the steps Durable.v computes, and by power-loss images synthesized from the tap: every file cut to its "
                   "fsynced length (and to every length between that and its current length at record granularity), unsynced creates/renames "
                   "dropped per directory-fsync; each image recovered on implementation and model; oracle: every live message below the last "
                   "acknowledged offset (Sync return, AutoSync Publish return, Close) present, survivors a prefix of the acknowledged "
                   "sequence, NextOffset >= acknowledged offset.",
-             ref='6/C06', technique='Coq proof (recovery of a log cut at any byte keeps everything below the cut) + power-loss image enumeration through an FS tap',
-             note="The set of fsync calls is observed on finite workloads, not proved; file-system semantics (prefix-preserving loss, "
+             ref='6/C06', technique='Coq proof (recovery of a log cut at any byte keeps everything below the cut; fsync protocol of Publish/Sync/Close on a file table) + power-loss image enumeration through an FS tap',
+             note="The fsync calls of Delete, Recover and Migrate are observed on finite workloads, not proved; file-system semantics (prefix-preserving loss, "
                   "directory fsync) are the harness's assumption. " + COMMON_NOTE),
  'C01': dict(text="Proof (Coq): for every history of API calls on one directory - Open in any mode (Check/Recover/EagerVersionMigrate, "
                   "read-write or read-only, any rollover size, either format version), Close, Publish, Delete, Consume, Get, GetByKey, "
